@@ -4,8 +4,10 @@ from values import Interner, dtype_wire, err_class
 import vecgen as G
 from vecgen import POOLS, TYPES, BINOPS, UNOPS, SYMBOL, val, vals
 # C05 also runs every operator form over elements whose operators are not commutative (the written operand order shows)
-POOLS = dict(POOLS, nc=G.EXTRA["nc"], tmpl=G.EXTRA["tmpl"], targ=G.EXTRA["targ"])
+POOLS = dict(POOLS, nc=G.EXTRA["nc"], tmpl=G.EXTRA["tmpl"], targ=G.EXTRA["targ"],
+             mix=G.EXTRA["mix"], big=G.EXTRA["big"], bytes=G.EXTRA["bytes"])
 TYPES = TYPES + ["nc"]
+import math
 
 PID = "C05"
 RULE = ("bin: 7 operators x 5 operand forms (vector, list, scalar, reflected scalar, reflected list) x 49 dtype pairs over "
@@ -16,6 +18,11 @@ RULE = ("bin: 7 operators x 5 operand forms (vector, list, scalar, reflected sca
         "bcast: every public method/property of str,int,float,date,bool,complex found by dir() that is not an attribute of "
         "Vector itself, with small argument pools (positional and keyword), on vectors of length 0,1,3 (all None patterns) and "
         "1200; table: table op scalar, scalar op table (reflected), -t/+t/abs(t), table op table over 7 operators with 0-3 columns, 0-3 rows, width and row mismatches. "
+        "gaps (builder gA): the operand's state - table column (neighbouring column as other operand, t.a op t.a), slice, vector "
+        "fingerprinted and used before in-place writes (incl. only-hash-equal edits 0.0/-0.0) - for bin/unary/bcast; element features - "
+        "equal numbers of different types in one <float> vector, ints beyond 2**53/2**63, bytes, range operands, unequal lengths up to "
+        "1200; bcast also over timedelta/datetime/bytes and every keyword argument; tables with permuted/missing/repeated column names, "
+        "t op t, up to 1100 rows / 14 columns, a list/tuple/vector with one element per row. "
         "Oracle per element = Python's own scalar result on the operands in the written order, compared by (type, repr), NaN-safe. "
         "non-trivial = at least one pair of non-None operands is evaluated (or the lengths differ) and the case is not skipped")
 ASSUMPTIONS = [
@@ -37,7 +44,8 @@ MISMATCH_PAIRS = [("int", "int"), ("float", "int"), ("str", "str"), ("date", "td
 # ------------------------------------------------------------------------------------------------
 # broadcast methods / properties
 # ------------------------------------------------------------------------------------------------
-BCAST_TYPES = ["str", "int", "float", "date", "bool", "complex"]
+BCAST_TYPES = ["str", "int", "float", "date", "bool", "complex", "td", "dtm", "bytes"]
+BCAST_PY = dict(G.PYTYPE, dtm=datetime.datetime, bytes=bytes)
 BCAST_POOLS = {
     # incl. strings on which closely related predicates differ ('²' isdigit but not isdecimal, '½' isnumeric only,
     # 'ǅ' istitle, 'ß'.upper() == 'SS', Arabic-Indic digits are decimal)
@@ -49,10 +57,15 @@ BCAST_POOLS = {
     "date": [datetime.date(2020, 1, 31), datetime.date(1999, 12, 31), datetime.date(2024, 2, 29)],
     "bool": [True, False],
     "complex": [1 + 2j, 0j, complex(-0.0, 0.0), complex(0.0, -0.0)],
+    # gap analysis: the other element types with methods / properties of their own (timedelta.days, datetime.hour, bytes.hex)
+    "td": [datetime.timedelta(1, 5), datetime.timedelta(days=-400, seconds=5), datetime.timedelta(0), datetime.timedelta(microseconds=7)],
+    "dtm": G.EXTRA["dtm"],
+    "bytes": [b"ab c", b"", b"a,b,,c", b"\xff\x00", b"123"],
 }
 GENERIC_ARGS = [((), {}), (("a",), {}), ((",",), {}), (("a", "X"), {}), ((1,), {}), ((3,), {}), ((8, "*"), {}),
                 ((2, "big"), {}), ((2000, 2, 28), {}), ((2,), {}), (("%Y/%m/%d",), {}), (("2021-03-04",), {}),
-                ((730000,), {}), ((86400.0,), {}), ((2020, 5, 3), {}), (("0x1.8p1",), {}), ((b"ab", "big"), {})]
+                ((730000,), {}), ((86400.0,), {}), ((2020, 5, 3), {}), (("0x1.8p1",), {}), ((b"ab", "big"), {}),
+                ((b"a",), {}), ((b",",), {}), ((b"a", b"X"), {}), ((8, b"*"), {}), (("utf-8",), {})]
 NAMED_ARGS = {
     "split": [((), {}), ((",",), {}), ((",", 1), {}), ((), {"sep": ",", "maxsplit": 1})],
     "rsplit": [((",", 1), {}), ((), {"sep": ","})],
@@ -78,15 +91,27 @@ NAMED_ARGS = {
     "strftime": [(("%Y/%m/%d",), {}), (("%a %j",), {})],
     "fromisoformat": [(("2021-03-04",), {})], "fromordinal": [((730000,), {})], "fromtimestamp": [((86400.0,), {})],
     "fromisocalendar": [((2020, 5, 3), {})], "fromhex": [(("0x1.8p1",), {})],
-    "isoformat": [((), {})],
+    "isoformat": [((), {}), ((" ",), {}), ((), {"sep": " ", "timespec": "minutes"})],
+    # gap analysis: every keyword a wrapper has to pass on (a wrapper that drops **kwargs still answers, with the default)
+    "expandtabs_": [((), {"tabsize": 4})], "strftime_": [((), {"format": "%d.%m.%Y"})],
+    "fromisocalendar_": [((), {"year": 2020, "week": 5, "day": 3})], "count_": [(("a", 1, 3), {})],
+    "find_": [(("b", 1, 3), {})], "startswith_": [(("b", 1), {})], "endswith_": [(("b", 0, 2), {})],
+    "rsplit_": [((), {"sep": ",", "maxsplit": 1}), ((None, 1), {})], "split_": [((None, 1), {})],
+    "encode_": [(("ascii", "ignore"), {})], "lstrip_": [((" a",), {})], "zfill_": [((2,), {})],
+    "rjust_": [((6, "."), {})], "ljust_": [((6,), {})], "rfind_": [((",", 0, 2), {})], "index_": [(("b", 1), {})],
+    "hex_": [((":",), {}), ((), {"sep": ":", "bytes_per_sep": 2})], "decode_": [((), {"encoding": "ascii", "errors": "replace"})],
 }
+for _k in [k for k in NAMED_ARGS if k.endswith("_")]:
+    NAMED_ARGS[_k[:-1]] = NAMED_ARGS.get(_k[:-1], [((), {}), (("utf-8",), {})] if _k[:-1] in ("hex", "decode") else []) + NAMED_ARGS.pop(_k)
+# methods whose answer depends on the machine's time zone / clock rather than on the element alone
+BCAST_SKIP = {"astimezone", "timestamp", "now", "utcnow", "today"}
 _BCAST = None
 
 
 def _dir_names(t):
     from serif import Vector
     base = set(dir(Vector))
-    return [n for n in dir(G.PYTYPE[t]) if not n.startswith("_") and n not in base]
+    return [n for n in dir(BCAST_PY[t]) if not n.startswith("_") and n not in base]
 
 
 def bcast_table():
@@ -96,8 +121,8 @@ def bcast_table():
         return _BCAST
     out = []
     for t in BCAST_TYPES:
-        cls = G.PYTYPE[t]
-        names = _dir_names(t)
+        cls = BCAST_PY[t]
+        names = [n for n in _dir_names(t) if n not in BCAST_SKIP or t not in ("dtm",)]
         if t == "str":
             names += ["before", "after", "before_last", "after_last"]   # serif's own per-element string helpers
         for name in names:
@@ -123,7 +148,7 @@ def bcast_table():
                 if good:
                     out.append((t, name, True, a, k))
                     kept += 1
-                    if kept >= 4:
+                    if kept >= (4 if name not in NAMED_ARGS else 7):
                         break
     _BCAST = out
     return out
@@ -158,7 +183,7 @@ def _bin(op, form, refl, xt, yt, x, y=None, s=None, **kw):
 
 def excluded(op, form, refl, yt):
     # 'fmt' % vector is plain string formatting (the left scalar's own method succeeds) - not a vector operation
-    return refl and form == "scalar" and op == "mod" and yt == "str"
+    return refl and form == "scalar" and op == "mod" and yt in ("str", "targ", "bytes")
 
 
 def gen_bin(rng, tier):
@@ -382,11 +407,177 @@ def gen_long(rng, tier):
                 yield {"fam": "unary", "op": op, "xt": xt, "x": G.fill(rng, xt, [rng.random() < 0.1 for _ in range(n)])}
 
 
+# ------------------------------------------------------------------------------------------------
+# gap analysis (builder gA): features and states the families above never produce
+# ------------------------------------------------------------------------------------------------
+VIAS = ("col", "slice", "warm")
+STATE_PAIRS = [("int", "int"), ("float", "float"), ("float", "int"), ("int", "float"), ("str", "str"), ("str", "int"),
+               ("date", "int"), ("date", "td"), ("bool", "int"), ("complex", "float"), ("td", "td"), ("nc", "nc")]
+NEW_PAIRS = [("mix", "int"), ("mix", "mix"), ("int", "mix"), ("mix", "float"), ("mix", "bool"), ("big", "int"), ("big", "float"),
+             ("int", "big"), ("big", "big"), ("float", "big"), ("bytes", "bytes"), ("bytes", "int"), ("bytes", "targ")]
+
+
+def hangs(op, xt, yt, refl=False):
+    """int ** huge-int never finishes: no power with a `big` exponent over a base that may be an int"""
+    if op != "pow":
+        return False
+    base, expo = (yt, xt) if refl else (xt, yt)
+    return expo == "big" and base in ("int", "mix", "big", "bool")
+
+
+def gen_state(rng, tier):
+    """the operand's STATE instead of its contents: a table column (the other operand the neighbouring column; `t.a * t.a`),
+    a slice of a longer vector, a vector that was fingerprinted and used in the same operation before in-place writes (hash-equal
+    ones - 0.0 over -0.0 - among them) gave it the contents"""
+    reps = 1 if tier == "quick" else 4
+    for _ in range(reps):
+        for via in VIAS:
+            for op in BINOPS:
+                for xt, yt in STATE_PAIRS + NEW_PAIRS[:3]:
+                    for form, refl in FORMS:
+                        if excluded(op, form, refl, yt):
+                            continue
+                        n = rng.choice([1, 2, 3, 4, 7])
+                        px = [rng.random() < 0.25 for _ in range(n)]
+                        if form == "scalar":
+                            yield _bin(op, form, refl, xt, yt, G.fill(rng, xt, px), s=rng.randrange(len(POOLS[yt])), via=via)
+                        else:
+                            yield _bin(op, form, refl, xt, yt, G.fill(rng, xt, px),
+                                       G.fill(rng, yt, [rng.random() < 0.25 for _ in range(n)]), via=via,
+                                       seqkind=rng.choice(["list", "tuple"]))
+                for xt in ("int", "float", "str", "date", "td", "bool", "complex", "nc", "mix"):
+                    for n in (1, 3, 300):
+                        yield _bin(op, "vec", False, xt, xt, G.fill(rng, xt, [rng.random() < 0.25 for _ in range(n)]), [],
+                                   same=True, via=via)
+            for op in UNOPS:
+                for xt in ("int", "float", "bool", "complex", "td", "mix", "big"):
+                    for n in (1, 3, 6, 300):
+                        yield {"fam": "unary", "op": op, "xt": xt, "via": via,
+                               "x": G.fill(rng, xt, [rng.random() < 0.25 for _ in range(n)])}
+    # only hash-equal in-place edits between the first use and the judged one
+    for _ in range(reps):
+        for op in BINOPS:
+            for xt, yt in (("float", "float"), ("float", "int"), ("complex", "float"), ("mix", "int"), ("mix", "mix")):
+                for form, refl in FORMS:
+                    n = rng.choice([2, 4, 7])
+                    px = [rng.random() < 0.15 for _ in range(n)]
+                    if form == "scalar":
+                        yield _bin(op, form, refl, xt, yt, G.fill(rng, xt, px), s=rng.randrange(len(POOLS[yt])), via="warmeq")
+                    else:
+                        yield _bin(op, form, refl, xt, yt, G.fill(rng, xt, px), G.fill(rng, yt, [rng.random() < 0.15 for _ in range(n)]),
+                                   via="warmeq")
+        for op in UNOPS:
+            for xt in ("float", "complex", "mix"):
+                for n in (1, 2, 2, 3, 4, 7, 7, 12):
+                    yield {"fam": "unary", "op": op, "xt": xt, "via": "warmeq",
+                           "x": G.fill(rng, xt, [rng.random() < 0.15 for _ in range(n)])}
+    tab = bcast_table()
+    for bi, (t, name, is_method, a, k) in enumerate(tab):
+        np_ = len(BCAST_POOLS[t])
+        if t in ("float", "complex"):
+            for n in (2, 5):
+                yield {"fam": "bcast", "b": bi, "via": "warmeq", "x": [rng.randrange(np_) for _ in range(n)]}
+        for via in VIAS:
+            for n in ((3,) if tier == "quick" else (1, 3, 9, 300)):
+                yield {"fam": "bcast", "b": bi, "via": via, "x": [None if rng.random() < 0.2 else rng.randrange(np_) for _ in range(n)]}
+
+
+def gen_newtypes(rng, tier):
+    """element features: numbers equal across types inside one <float>/<int> vector (a dtype wider than its contents), ints
+    beyond 2**53 and 2**63, bytes (a scalar although iterable; b'ab' has as many items as a 2-element vector), a range as the
+    plain sequence, unequal lengths on long operands"""
+    reps = 2 if tier == "quick" else 12
+    for op in BINOPS:
+        for xt, yt in NEW_PAIRS:
+            for form, refl in FORMS:
+                if excluded(op, form, refl, yt) or (yt == "targ" and op != "mod") or hangs(op, xt, yt, refl):
+                    continue
+                for n in [0, 1, 1, 2, 2, 3, 6, 9] * reps + [300]:
+                    px = [rng.random() < 0.2 for _ in range(n)]
+                    if form == "scalar":
+                        si = rng.randrange(len(POOLS[yt]))
+                        if yt == "targ" and isinstance(POOLS[yt][si], tuple):
+                            continue
+                        yield _bin(op, form, refl, xt, yt, G.fill(rng, xt, px), s=si)
+                    else:
+                        yield _bin(op, form, refl, xt, yt, G.fill(rng, xt, px), G.fill(rng, yt, [rng.random() < 0.2 for _ in range(n)]),
+                                   seqkind=rng.choice(["list", "tuple"]))
+        # a range object of the right length as the plain sequence (direct and reflected)
+        for xt in ("int", "float", "bool", "complex", "mix", "big", "td", "str"):
+            for n in (0, 1, 2, 5, 300):
+                for refl in (False, True):
+                    if op == "pow" and xt == "big":       # int ** huge-int never finishes; huge ** 300 cannot be printed
+                        continue
+                    yield _bin(op, "seq", refl, xt, "int", G.fill(rng, xt, [rng.random() < 0.2 for _ in range(n)]),
+                               [0] * n, seqkind="range1")
+        # unequal lengths far beyond the scripted ones: nothing truncated, recycled or broadcast at any size
+        for xt, yt in (("int", "int"), ("float", "float"), ("date", "int"), ("str", "str")):
+            for form, refl in FORMS:
+                if form == "scalar":
+                    continue
+                for n, m in ((256, 257), (1200, 1199), (300, 1), (1, 300), (300, 0), (0, 300), (600, 300), (128, 256)):
+                    yield _bin(op, form, refl, xt, yt, G.fill(rng, xt, [rng.random() < 0.1 for _ in range(n)]),
+                               G.fill(rng, yt, [rng.random() < 0.1 for _ in range(m)]), xtyped=True, ytyped=True,
+                               seqkind=rng.choice(["list", "tuple"]))
+    for op in UNOPS:
+        for xt in ("mix", "big"):
+            for n in [1, 1, 2, 3, 6, 9] * reps + [300]:
+                yield {"fam": "unary", "op": op, "xt": xt, "x": G.fill(rng, xt, [rng.random() < 0.2 for _ in range(n)])}
+
+
+def gen_table_gaps(rng, tier):
+    """tables: column names that differ between the operands (permuted, missing, repeated: columns pair by position), the same
+    table on both sides, more rows / columns than any scripted table, a plain sequence or vector with one element per row"""
+    namesets = [(["a", "b"], ["b", "a"]), (["a", "b"], ["a", "b"]), ([None, "b"], ["a", None]), (["a", "a"], ["b", "b"]),
+                (["x", "y"], ["y", "z"]), ([None, None], ["b", "a"]), (["a", "b"], [None, None])]
+    for op in BINOPS:
+        for n1, n2 in namesets:
+            for ta, tb in ((("int", "float"), ("int", "float")), (("float", "int"), ("int", "complex")), (("str", "int"), ("int", "int")),
+                           (("date", "td"), ("td", "td"))):
+                nrows = rng.choice([1, 2, 3])
+                cols = [{"t": ta[j], "x": G.fill(rng, ta[j], [rng.random() < 0.2 for _ in range(nrows)]), "n": n1[j]} for j in range(2)]
+                cols2 = [{"t": tb[j], "x": G.fill(rng, tb[j], [rng.random() < 0.2 for _ in range(nrows)]), "n": n2[j]} for j in range(2)]
+                yield {"fam": "table", "op": op, "cols": cols, "form": "table", "cols2": cols2}
+                yield {"fam": "table", "op": op, "cols": cols, "form": "scalar", "st": tb[0], "s": rng.randrange(len(POOLS[tb[0]])),
+                       "refl": rng.random() < 0.5}
+        for types in (["int"], ["int", "float"], ["float", "bool", "complex"], ["str"], ["td", "td"], ["mix", "big" if op != "pow" else "int"], []):
+            for nrows in (0, 1, 3):
+                cols = [{"t": t, "x": G.fill(rng, t, [rng.random() < 0.25 for _ in range(nrows)])} for t in types]
+                yield {"fam": "table", "op": op, "cols": cols, "form": "table", "same": True, "cols2": cols}
+        # size: rows and columns beyond the scripted 3 x 3
+        for nrows, ncols in ((300, 2), (1100, 1), (2, 14), (40, 9)):
+            for types in (["int", "float"], ["float", "mix"], ["date", "td"], ["str", "int"]):
+                cols = [{"t": types[j % 2], "x": G.fill(rng, types[j % 2], [rng.random() < 0.1 for _ in range(nrows)])} for j in range(ncols)]
+                t = rng.choice(types + ["int"])
+                base = {"fam": "table", "op": op, "cols": cols, "form": "scalar", "st": t, "s": rng.randrange(len(POOLS[t]))}
+                yield dict(base)
+                yield dict(base, refl=True)
+                yield {"fam": "table", "op": op, "cols": cols, "form": "table",
+                       "cols2": [{"t": c["t"] if rng.random() < 0.7 else "int",
+                                  "x": G.fill(rng, c["t"], [rng.random() < 0.1 for _ in range(nrows)])} for c in cols]}
+                yield {"fam": "table", "op": op, "cols": cols, "form": "table", "same": True, "cols2": cols}
+            cols = [{"t": "float", "x": G.fill(rng, "float", [rng.random() < 0.1 for _ in range(nrows)])} for j in range(ncols)]
+            yield dict({"fam": "table", "op": "add", "cols": cols, "form": "scalar", "st": "int", "s": 0}, unary=rng.choice(list(UNOPS)))
+        # one operand element per row
+        for _ in range(12 if tier == "quick" else 120):
+            ncols = rng.choice([0, 1, 2, 3])
+            nrows = rng.choice([0, 1, 2, 3, 5, 5])
+            fam_types = rng.choice([["int", "float", "bool"], ["str", "int"], ["date", "td", "int"], ["mix", "big" if op != "pow" else "float", "int"]])
+            cols = [{"t": t, "x": G.fill(rng, t, [rng.random() < 0.25 for _ in range(nrows)])}
+                    for t in (rng.choice(fam_types) for _ in range(ncols))]
+            yt = rng.choice(fam_types)
+            m = nrows
+            if rng.random() < 0.25 and ncols:
+                m = rng.choice([k for k in (nrows + 1, nrows + 2, max(0, nrows - 1)) if k not in (nrows, ncols)])
+            yield {"fam": "table", "op": op, "cols": cols, "form": rng.choice(["seq", "vec"]), "yt": yt,
+                   "y": G.fill(rng, yt, [rng.random() < 0.25 for _ in range(m)]), "seqkind": rng.choice(["list", "tuple"])}
+
+
 def generate(rng, tier):
     # interleave so that every family is reached early even when the budget is short
     gens = [gen_bin(rng, tier), gen_unary(rng, tier), gen_bcast(rng, tier), gen_table(rng, tier), gen_random(rng, tier),
-            gen_long(rng, tier), gen_templates(rng, tier)]
-    weights = [12, 1, 2, 1, 4, 1, 1]
+            gen_long(rng, tier), gen_templates(rng, tier), gen_state(rng, tier), gen_newtypes(rng, tier), gen_table_gaps(rng, tier)]
+    weights = [12, 1, 2, 1, 4, 1, 1, 2, 2, 1]
     alive = list(range(len(gens)))
     while alive:
         for gi in list(alive):
@@ -407,10 +598,97 @@ def generate(rng, tier):
 # ------------------------------------------------------------------------------------------------
 # execution
 # ------------------------------------------------------------------------------------------------
+def _same_contents(v, xs):
+    return [(type(a), repr(a)) for a in v] == [(type(a), repr(a)) for a in xs]
+
+
+def _twin(x):
+    """a value equal and hash-equal to x that is not x's (type, repr): the other signed zero"""
+    if isinstance(x, float) and x == 0.0:
+        return 0.0 if math.copysign(1.0, x) < 0 else -0.0
+    if isinstance(x, complex) and x == 0:
+        return 0j if repr(x) != "0j" else complex(-0.0, 0.0)
+    return None
+
+
+class RouteSkip(Exception):
+    pass
+
+
+_KEEP = []
+
+
+def routed(via, t, idx, warmup=None, other_col=None):
+    """the vector holding pool values `idx` of type t, reached in another way than by building it from a list (gap analysis:
+    the state of the operand, not only its contents):
+      col   - a column of a table (next to the other operand, if that is a vector of the same length)
+      slice - a slice of a longer vector
+      warm  - another vector of the same kind that was fingerprinted and used in the same operation (`warmup`) before in-place
+              writes gave it these contents; where the pool has an equal, hash-equal twin (0.0 / -0.0) the write is a
+              hash-equal edit
+    returns (vector, other-column-or-None); raises RouteSkip when the route cannot produce exactly these contents"""
+    from serif import Vector, Table
+    xs = vals(t, idx)
+    p = G.pool(t) if t not in POOLS else POOLS[t]
+    other = None
+    try:
+        if via == "col":
+            d = {"a": list(xs)}
+            if other_col is not None and len(other_col) == len(xs):
+                d["b"] = list(other_col)
+            else:
+                d["z"] = list(range(len(xs)))
+            holder = Table(d)
+            _KEEP[:] = [holder]          # the table stays alive while its columns are used
+            v = holder["a"]
+            if "b" in d:
+                other = holder["b"]
+        elif via == "slice":
+            w = Vector([p[0]] + list(xs) + [p[-1]])
+            v = w[1:len(xs) + 1]
+        elif via in ("warm", "warmeq"):
+            start = []
+            for i, (j, x) in enumerate(zip(idx, xs)):
+                tw = _twin(x) if x is not None else None
+                if via == "warmeq":     # ONLY hash-equal edits: whatever is keyed by hash / fingerprint sees no change
+                    start.append(tw if tw is not None else x)
+                else:
+                    start.append(tw if tw is not None else p[i % len(p)] if x is None else p[(j + 1) % len(p)])
+            if via == "warmeq" and _same_contents(start, xs):
+                raise RouteSkip("no hash-equal twin in the contents")
+            v = Vector(start)
+            v.fingerprint()
+            if warmup is not None:
+                warmup(v)
+            v.fingerprint()
+            for i, x in enumerate(xs):
+                v[i] = x
+        else:
+            raise ValueError(via)
+    except RouteSkip:
+        raise
+    except Exception as e:
+        raise RouteSkip("route raised " + type(e).__name__)
+    if not isinstance(v, Vector) or not _same_contents(v, xs):
+        raise RouteSkip("route did not produce the intended contents")
+    if other is not None and not _same_contents(other, other_col):
+        raise RouteSkip("route did not produce the intended contents")
+    return v, other
+
+
+def _declared(t, xs):
+    """the caller declares the kind with a plain Python type: the dtype says non-nullable whatever the data holds (C06)"""
+    from serif import Vector
+    return Vector(list(xs), dtype=G.PYTYPE.get(t, object))
+
+
 def bin_inputs(spec):
     from serif import Vector
     xs = vals(spec["xt"], spec["x"])
-    v = G.make_vector(spec["xt"], xs, typed=spec.get("xtyped", False))
+    via = spec.get("via")
+    if via and xs and not all(x is None for x in xs):
+        return _bin_inputs_routed(spec, via, xs)
+    v = _declared(spec["xt"], xs) if spec.get("xtyped") == "declared" else G.make_vector(spec["xt"], xs, typed=spec.get("xtyped", False))
     form = spec["form"]
     if spec.get("same"):
         return v, xs, v, xs
@@ -427,8 +705,41 @@ def bin_inputs(spec):
         elif kind == "range" and all(isinstance(y, int) for y in ys):
             other = range(len(ys))
             ys = list(other)
+        elif kind == "range1" and all(y is not None and type(y) is int for y in ys):
+            other = range(1, len(ys) + 1)      # gap analysis: a range as the plain sequence of the right length
+            ys = list(other)
         else:
             other = list(ys)
+    return v, xs, other, ys
+
+
+def _plain_operand(spec, ys):
+    kind = spec.get("seqkind", "list")
+    if kind == "tuple":
+        return tuple(ys), ys
+    if kind == "range1" and ys and all(type(y) is int for y in ys):
+        other = range(1, len(ys) + 1)     # a range object is a plain sequence too
+        return other, list(other)
+    return list(ys), ys
+
+
+def _bin_inputs_routed(spec, via, xs):
+    form, refl, f = spec["form"], spec["refl"], BINOPS[spec["op"]]
+    if spec.get("same"):
+        v, _ = routed(via, spec["xt"], spec["x"], warmup=lambda w: G.run(lambda: f(w, w)))
+        return v, xs, v, xs
+    if form == "scalar":
+        s = val(spec["yt"], spec["s"])
+        v, _ = routed(via, spec["xt"], spec["x"], warmup=lambda w: G.run(lambda: f(s, w) if refl else f(w, s)))
+        return v, xs, s, None
+    ys = vals(spec["yt"], spec["y"])
+    if form == "vec":
+        plain = G.make_vector(spec["yt"], ys, typed=spec.get("ytyped", False))
+        v, col = routed(via, spec["xt"], spec["x"], warmup=lambda w: G.run(lambda: f(plain, w) if refl else f(w, plain)),
+                        other_col=ys if ys and not all(y is None for y in ys) else None)
+        return v, xs, (col if col is not None else plain), ys
+    other, ys = _plain_operand(spec, ys)
+    v, _ = routed(via, spec["xt"], spec["x"], warmup=lambda w: G.run(lambda: f(other, w) if refl else f(w, other)))
     return v, xs, other, ys
 
 
@@ -438,7 +749,10 @@ def binary_wire(spec, fam="bin"):
     I = Interner()
     op, refl, form = spec["op"], spec["refl"], spec["form"]
     f = BINOPS[op]
-    v, xs, other, ys = bin_inputs(spec)
+    try:
+        v, xs, other, ys = bin_inputs(spec)
+    except RouteSkip as e:
+        return {"skip": str(e)}
     xu = [I.uid(x) for x in xs]
     case = {"op": op, "refl": refl, "form": form, "xs": xu, "dt": dtype_wire(v.schema())}
     if form == "scalar":
@@ -479,8 +793,16 @@ def binary_wire(spec, fam="bin"):
 def unary_wire(spec, fam="unary"):
     I = Interner()
     xs = vals(spec["xt"], spec["x"])
-    v = G.make_vector(spec["xt"], xs, typed=spec.get("xtyped", False))
     f = UNOPS[spec["op"]]
+    if spec.get("via") and xs and not all(x is None for x in xs):
+        try:
+            v, _ = routed(spec["via"], spec["xt"], spec["x"], warmup=lambda w: G.run(lambda: f(w)))
+        except RouteSkip as e:
+            return {"skip": str(e)}
+    elif spec.get("xtyped") == "declared":
+        v = _declared(spec["xt"], xs)
+    else:
+        v = G.make_vector(spec["xt"], xs, typed=spec.get("xtyped", False))
     tab = {}
     for x in xs:
         if x is not None and I.uid(x) not in tab:
@@ -497,13 +819,54 @@ def bcast_parts(spec):
     return t, name, is_method, a, k, xs
 
 
+def _bcast_routed(via, t, idx, xs, warmup):
+    from serif import Vector, Table
+    p = BCAST_POOLS[t]
+    try:
+        if via == "col":
+            holder = Table({"a": list(xs), "z": list(range(len(xs)))})
+            _KEEP[:] = [holder]
+            v = holder["a"]
+        elif via == "slice":
+            v = Vector([p[0]] + list(xs) + [p[-1]])[1:len(xs) + 1]
+        else:   # warm, warmeq
+            start = []
+            for i, (j, x) in enumerate(zip(idx, xs)):
+                tw = _twin(x) if x is not None else None
+                if via == "warmeq":
+                    start.append(tw if tw is not None else x)
+                else:
+                    start.append(tw if tw is not None else p[i % len(p)] if x is None else p[(j + 1) % len(p)])
+            if via == "warmeq" and _same_contents(start, xs):
+                raise RouteSkip("no hash-equal twin in the contents")
+            v = Vector(start)
+            v.fingerprint()
+            warmup(v)
+            v.fingerprint()
+            for i, x in enumerate(xs):
+                v[i] = x
+    except Exception as e:
+        raise RouteSkip("route raised " + type(e).__name__)
+    if not isinstance(v, Vector) or not _same_contents(v, xs):
+        raise RouteSkip("route did not produce the intended contents")
+    return v
+
+
 def bcast_wire(spec):
     from serif import Vector
     from serif.typing import DataType
     t, name, is_method, a, k, xs = bcast_parts(spec)
     I = Interner()
+    def call_on(w):
+        attr = getattr(w, name)
+        return attr(*a, **k) if is_method else attr
     if all(x is None for x in xs):
-        v = Vector(list(xs), dtype=DataType(G.PYTYPE[t], nullable=bool(xs)))
+        v = Vector(list(xs), dtype=DataType(BCAST_PY[t], nullable=bool(xs)))
+    elif spec.get("via"):
+        try:
+            v = _bcast_routed(spec["via"], t, spec["x"], xs, lambda w: G.run(lambda: call_on(w)))
+        except RouteSkip as e:
+            return {"skip": str(e)}
     else:
         v = Vector(list(xs))
     tab, tab2 = {}, {}
@@ -530,7 +893,11 @@ def bcast_wire(spec):
 
 
 def _table(cols):
-    from serif import Table
+    from serif import Table, Vector
+    if any("n" in c for c in cols):
+        # gap analysis: column names chosen by the case (permuted between the two tables, missing, repeated) - table
+        # arithmetic pairs columns by POSITION
+        return Table([Vector(vals(c["t"], c["x"]), name=c.get("n")) for c in cols])
     return Table({f"c{j}": vals(c["t"], c["x"]) for j, c in enumerate(cols)})
 
 
@@ -549,7 +916,7 @@ def table_wire(spec):
         f = lambda x, y: h(y, x)
     try:
         t1 = _table(spec["cols"])
-        t2 = _table(spec["cols2"]) if spec["form"] == "table" else None
+        t2 = (t1 if spec.get("same") else _table(spec["cols2"])) if spec["form"] == "table" else None
     except Exception as e:
         return {"skip": "could not build the input table: " + type(e).__name__}
     c1 = list(t1.cols())
@@ -586,6 +953,18 @@ def table_wire(spec):
             for x in c:
                 add_pair(c, x, s)
         other = s
+    elif spec["form"] in ("seq", "vec"):
+        # gap analysis: a plain sequence / a vector with one element per ROW on the right: the same operand for every column
+        ys = vals(spec["yt"], spec["y"])
+        if spec["form"] == "vec":
+            other = G.make_vector(spec["yt"], ys, typed=True)
+            case["ydt"] = dtype_wire(other.schema())
+        else:
+            other = tuple(ys) if spec.get("seqkind") == "tuple" else list(ys)
+        case["ys"] = [I.uid(y) for y in ys]
+        for c in c1:
+            for x, y in zip(list(c), ys):
+                add_pair(c, x, y)
     else:
         c2 = list(t2.cols())
         case["cols2"] = [{"xs": [I.uid(x) for x in c], "dt": dtype_wire(c.schema())} for c in c2]
@@ -734,6 +1113,23 @@ def _shrink(spec):
 
 
 def snippet(spec):
+    text = _snippet(spec)
+    notes = []
+    if spec.get("via"):
+        notes.append(f"# NOTE: the left vector is reached via route {spec['via']!r} (see routed() in harness/props/c05.py): "
+                     "col = column 'a' of a Table (other operand column 'b'), slice = w[1:n+1] of a longer vector, "
+                     "warm/warmeq = fingerprint() + the same operation first, then in-place writes to these contents")
+    if spec.get("xtyped") == "declared":
+        notes.append("# NOTE: the vector is built with dtype=<plain Python type> (declared non-nullable, holds None)")
+    if spec.get("fam") == "table" and any("n" in c for c in spec.get("cols", [])):
+        notes.append("# NOTE: column names: " + repr([c.get("n") for c in spec["cols"]]) + " / "
+                     + repr([c.get("n") for c in spec.get("cols2", [])]))
+    if spec.get("fam") == "table" and spec.get("same"):
+        notes.append("# NOTE: other is t itself (t op t)")
+    return text + ("\n" + "\n".join(notes) if notes else "")
+
+
+def _snippet(spec):
     fam = spec["fam"]
     if fam == "bin":
         xs = vals(spec["xt"], spec["x"])
@@ -765,7 +1161,8 @@ def snippet(spec):
     if fam == "table":
         def tsrc(cols):
             return "Table({" + ", ".join(f"'c{j}': {G.pyrepr(vals(c['t'], c['x']))}" for j, c in enumerate(cols)) + "})"
-        other = G.pyrepr(val(spec["st"], spec["s"])) if spec["form"] == "scalar" else tsrc(spec["cols2"])
+        other = G.pyrepr(val(spec["st"], spec["s"])) if spec["form"] == "scalar" else \
+            G.pyrepr(vals(spec["yt"], spec["y"])) if spec["form"] in ("seq", "vec") else tsrc(spec["cols2"])
         if spec.get("unary"):
             e = {"neg": "-t", "pos": "+t", "abs": "abs(t)", "inv": "~t"}[spec["unary"]]
         elif spec.get("refl"):
